@@ -858,6 +858,15 @@ func (g *c15Gen) str(atoms []string, max int) string {
 	return sb.String()
 }
 
+// dashNote: what follows the rules of an annotation - usually " - note", one time in eight a dash with nothing
+// (or only blanks) behind it.
+func (g *c15Gen) dashNote(multi bool) string {
+	if g.rng.IntN(8) == 0 {
+		return []string{" -", " - ", "-", " -\t", " -  "}[g.rng.IntN(5)]
+	}
+	return " - " + g.note(multi)
+}
+
 func (g *c15Gen) note(multi bool) string {
 	var parts []string
 	for n := 1 + g.rng.IntN(3); n > 0; n-- {
@@ -936,7 +945,7 @@ func (g *c15Gen) annot(kind byte, member bool, pNone int) {
 		g.tok(gap + "// " + g.note(false))
 		g.needNL = true
 	case f < 7:
-		g.tok(gap + "// " + g.ruleObject(rk, member, false) + " - " + g.note(false))
+		g.tok(gap + "// " + g.ruleObject(rk, member, false) + g.dashNote(false))
 		g.needNL = true
 	case f == 7:
 		g.tok(gap + "//" + g.ruleObject(rk, member, false) + []string{"", " ", "  \t"}[g.rng.IntN(3)])
@@ -1144,7 +1153,7 @@ func c15GenSchema(rng *rand.Rand, sel int) (text string, usesRefs bool, rootKind
 		case 1:
 			g.tok(gap + "// " + g.note(false))
 		case 2:
-			g.tok(gap + "// " + g.ruleObject(k, false, false) + " - " + g.note(false))
+			g.tok(gap + "// " + g.ruleObject(k, false, false) + g.dashNote(false))
 		default:
 			g.tok(gap + "//" + g.ruleObject(k, false, false) + "-" + g.note(false))
 		}
